@@ -275,6 +275,22 @@ Theorem split_edges_path_through_new_node : forall ns t N es out flags pop md,
               node_time (ns ++ repeat (mkN flags t pop (-1) md) (num_splits ns t es)) u = t.
 Proof. exact split_edges_path. Qed.
 
+(* the time-cut models return Ok on every table collection whose references are in range,
+   and the documented refusals are exactly these *)
+Theorem delete_older_total : forall t tb, time_refs_ok tb -> exists tb', delete_older t tb = Ok tb'.
+Proof. exact delete_older_total. Qed.
+
+Theorem split_edges_total : forall srt t flags pop md npop tb,
+  t_migs tb = [] -> -1 <= pop < npop -> time_refs_ok tb ->
+  exists tb', split_edges srt t flags pop md npop tb = Ok tb'.
+Proof. exact split_edges_total. Qed.
+
+Theorem split_edges_refusals : forall srt t flags pop md npop tb,
+  (pop < -1 -> split_edges srt t flags pop md npop tb = Err 1) /\
+  (-1 <= pop -> t_migs tb <> [] -> split_edges srt t flags pop md npop tb = Err 2) /\
+  (-1 <= pop -> t_migs tb = [] -> npop <= pop -> split_edges srt t flags pop md npop tb = Err 2).
+Proof. exact split_edges_errors. Qed.
+
 (* (g) decapitate: ancestry strictly below t unchanged, cut at t, nothing at/above t left *)
 Theorem decapitate_spec : forall srt t flags pop md npop tb tb',
   sort_ok srt -> decapitate srt t flags pop md npop tb = Ok tb' ->
